@@ -417,7 +417,7 @@ def invalid_case(rng, j):
     p = np.ones(K) / K
     classes = ["cov-count", "p-count", "nonsquare", "scale-ndim", "p-zero", "p-negative", "p-sum-far", "p-sum-isclose", "p-sum-choice",
                "not-psd", "nonsymmetric", "all-zero", "var-zero", "var-negative", "one-component", "nan", "p-2d", "scale-1d-3d", "scale-1d-wide",
-               "ragged", "p-len-short", "p-negative-unnormalised", "count-and-square"]
+               "ragged", "p-len-short", "p-negative-unnormalised", "count-and-square", "loc-1d", "loc-3d", "scale-1d", "scale-4d", "p-0d"]
     c = classes[j % len(classes)]
     dom = True
     k = int(rng.integers(0, K))
@@ -508,6 +508,20 @@ def invalid_case(rng, j):
         d = 1
         loc = np.round(rng.normal(size=(K, 1)), 3)
         scale = np.ones((K, 2))
+    elif c in ("loc-1d", "loc-3d", "scale-1d", "scale-4d", "p-0d"):       # wrong rank: outside the model (L3 only)
+        dom = False
+        if c == "loc-1d":
+            loc = loc[:, 0]
+        elif c == "loc-3d":
+            loc = loc.reshape(K, d, 1)
+        elif c == "scale-1d":
+            scale = np.ones(K)
+        elif c == "scale-4d":
+            d = max(d, 2)
+            loc = np.round(rng.normal(size=(K, d)), 3)
+            scale = np.ones((K, d, d, 1))
+        else:
+            p = 0.5
     elif c == "ragged":
         dom = False
         loc = [list(r) for r in loc]
@@ -655,6 +669,87 @@ def stream_student(chk, i, rng):
     seeds_check(chk, "student", lambda s: multivariate_student_t(n, loc, scale, df, s), seed, replay, X, None)
     chk.dist[f"student d={d}"] += 1
     chk.count(("student", d, n, df, seed))
+
+
+STUDENT_BAD = ["scale-1d", "scale-0d", "scale-3d", "scale-nonsquare", "scale-bigger", "scale-smaller", "loc-0d", "loc-2d", "loc-empty",
+               "df-zero", "df-negative", "df-nan", "df-inf", "df-neg-inf", "df-none", "df-str", "n-zero", "n-float", "nan-loc", "inf-scale"]
+
+
+def stream_student_invalid(chk, i, rng):
+    """malformed arguments of multivariate_student_t: a ValueError / TypeError (InvalidParameterError is both), never another
+    exception, never a result; the model's shape verdict agrees where the arguments are inside its domain (2-D scale, 1-D loc)"""
+    c = STUDENT_BAD[i % len(STUDENT_BAD)]
+    d = int(rng.choice([1, 2, 3]))
+    n = int(rng.choice([1, 4, 9]))
+    loc = np.round(rng.normal(size=d) * 3, 3)
+    scale = rand_spd(rng, d, "full")
+    df = float(rng.choice([1, 3, 10]))
+    dom = False
+    if c == "scale-1d":
+        scale = np.ones(d)
+    elif c == "scale-0d":
+        scale = 1.0
+    elif c == "scale-3d":
+        scale = np.ones((d, d, d)) if rng.random() < 0.5 else np.eye(d).reshape(1, d, d)
+    elif c == "scale-nonsquare":
+        scale, dom = (np.ones((d, d + 1)) if rng.random() < 0.5 else np.ones((d + 1, d))), True
+    elif c == "scale-bigger":
+        scale, dom = np.eye(d + 1), True
+    elif c == "scale-smaller":
+        d += 1
+        loc = np.round(rng.normal(size=d), 3)
+        scale, dom = np.eye(d - 1), True
+    elif c == "loc-0d":
+        loc = 1.5
+    elif c == "loc-2d":
+        d = max(d, 2)
+        loc, scale = np.zeros((1, d)), np.eye(d)
+    elif c == "loc-empty":
+        loc = []
+        scale = np.zeros((0, 0)) if rng.random() < 0.5 else scale
+    elif c == "df-zero":
+        df = 0 if rng.random() < 0.5 else 0.0
+    elif c == "df-negative":
+        df = -float(rng.choice([1e-9, 1, 3]))
+    elif c == "df-nan":
+        df = float("nan")
+    elif c == "df-inf":
+        df = float("inf")
+    elif c == "df-neg-inf":
+        df = -float("inf")
+    elif c == "df-none":
+        df = None
+    elif c == "df-str":
+        df = "3"
+    elif c == "n-zero":
+        n = 0
+    elif c == "n-float":
+        n = 2.5
+    elif c == "nan-loc":
+        loc = loc.copy()
+        loc[0] = np.nan
+    elif c == "inf-scale":
+        scale = scale.copy()
+        scale[0, 0] = np.inf
+    replay = {"fn": "multivariate_student_t", "class": c, "n": n, "loc": np.asarray(loc).tolist(), "scale": np.asarray(scale).tolist(), "df": repr(df)}
+    try:
+        multivariate_student_t(n, loc, scale, df, 0)
+        chk.fail(f"student:invalid:{c}:accepted", f"malformed arguments of multivariate_student_t ({c}) are accepted", replay, layer="L3")
+    except (ValueError, TypeError):
+        pass
+    except Exception as e:  # noqa
+        chk.fail(f"student:invalid:{c}:wrong-error", f"malformed arguments of multivariate_student_t ({c}) raise {type(e).__name__} instead of a ValueError/TypeError: {str(e)[:120]}", replay, layer="L3")
+    if dom:
+        t = chk.ask(f"c20.student 1 {enc_v(loc)} {enc_m(scale)} {hx(1.0)} 0")
+        mok = t.bool()
+        t.list(lambda: rd_call(t))
+        t.next()
+        if t.bool() != mok:
+            chk.fail("student:regenerated-vs-model", "regenerated and hand-written shape tests differ", replay)
+        if mok:
+            chk.fail(f"student:invalid:{c}:verdict", "the model's shape test accepts a scale whose shape does not match the location", replay)
+    chk.dist["student invalid:" + c] += 1
+    chk.count(("student-invalid", c, i))
 
 
 def stream_gstm(chk, i, rng):
@@ -1067,7 +1162,7 @@ def stream_stats(chk, i, rng):
 
 
 STREAMS = {"regression": (stream_regression, len(REGRESSION), len(REGRESSION)),
-           "gmm": (stream_gmm, 600, 6000), "invalid": (stream_invalid, 460, 4600), "student": (stream_student, 144, 1500),
+           "gmm": (stream_gmm, 600, 6000), "invalid": (stream_invalid, 560, 5600), "student": (stream_student, 144, 1500), "student_invalid": (stream_student_invalid, 100, 1000),
            "gstm": (stream_gstm, 160, 1600), "celeux": (stream_celeux, 120, 1200), "repr": (stream_repr, 72, 720), "stats": (stream_stats, 24, 180)}
 
 
@@ -1096,8 +1191,8 @@ def main():
     chk.notes.append(f"largest |z| over all statistical tests of this run: {getattr(chk, 'notes_worst', 0.0):.2f} (acceptance band 6)")
     chk.finish(rule="streams: draw_gmm on random valid descriptions (K 2..6, d 1..4, n<=34 quick / <90 thorough; identity, diagonal, full and singular rank-one "
                     "covariances; uniform, Dirichlet, dyadic and within-tolerance proportions) with a recording RandomState: requests and outputs vs the extracted model, "
-                    "row-source / request-parameter / seed oracles; 23 classes of invalid descriptions (raise site vs the model, must be a ValueError/TypeError); "
-                    "regression cases of the repaired defects; multivariate_student_t, gstm, celeux_one, celeux_two likewise against the model and the hand-written documented "
+                    "row-source / request-parameter / seed oracles; 28 classes of invalid descriptions (raise site vs the model, must be a ValueError/TypeError); "
+                    "regression cases of the repaired defects; 20 classes of malformed multivariate_student_t arguments (scale / loc of wrong rank or shape, df and n outside their domain, non-finite entries); multivariate_student_t, gstm, celeux_one, celeux_two likewise against the model and the hand-written documented "
                     "design; representation stream (the same parameter values as lists, tuples, Fortran / non-contiguous / read-only arrays, float32, int64 / int32 / python ints, numpy scalars: bit-identical samples, labels and random requests under the same random_state, float64 output, arguments unchanged); large-sample 6-sigma moment/quantile/regression tests. non-trivial = a mixture run whose labels name at least two components, "
                     "an invalid class instance, or a statistical case; distinct = distinct (generator, sizes, parameters, seed) signature",
                extra={"regenerated_ties": {"Gen/DataConstants.v": tie_of("tr_dataconstants"), "Gen/DataGenRules.v": tie_of("tr_datagen")}})
